@@ -23,6 +23,14 @@
 #include "efuns/sscanf.h"
 
 void dealloc_funp (funptr_t * funptr) {
+  /* a local function pointer counts as a function reference of its owner's program
+   * (make_lfun_funp()); the owner, which we still hold, keeps that program alive */
+  if (funptr->hdr.type == (FP_LOCAL | FP_NOT_BINDABLE) && funptr->hdr.owner->prog)
+    funptr->hdr.owner->prog->func_ref--;
+  /* ... and so does a not bindable functional made by inherited code (make_functional_funp()) */
+  else if (funptr->hdr.type == (FP_FUNCTIONAL | FP_NOT_BINDABLE) && funptr->hdr.owner->prog
+           && funptr->hdr.owner->prog != funptr->f.functional.prog)
+    funptr->hdr.owner->prog->func_ref--;
   free_object (funptr->hdr.owner, "free_funp");
   if (funptr->hdr.args)
     free_array (funptr->hdr.args);
